@@ -195,7 +195,7 @@ def main():
                  " * ASSERT ends the process through libast_fatal_error (stub: path ends), every surviving path must still meet",
                  " * the postcondition.  Plain loop-free cbmc runs: the NULL path returns before any loop or dispatch. */"]
         for d, i, why in units:
-            lines.append("/*@unit\nname: %s.arg%d\ndefine: U_%s_%d\nsrc: %s\nfuncs: %s\nbackend: sat\ntimeout: 120\nflags: --unwind 2 --unwinding-assertions\nchecks_off: --conversion-check --pointer-overflow-check\n*/" % (d["name"], i, d["name"], i, f, d["name"]))
+            lines.append("/*@unit\nname: %s.arg%d\ndefine: U_%s_%d\nsrc: %s\nfuncs: %s\nbackend: sat\ntimeout: 120\nflags: --unwind 2 --unwinding-assertions\nchecks_off: --conversion-check --pointer-overflow-check\nnative: self\n*/" % (d["name"], i, d["name"], i, f, d["name"]))
         if f == "msgs.c":
             lines.append("#define VERIF_REAL_MSGS\nunsigned int libast_debug_level;\nunsigned long libast_debug_flags;")
         lines.append('#include "c16_prelude.h"')
@@ -214,7 +214,7 @@ def main():
                     decls.append("    void *b%d = c16_blob();" % j)
                     args.append("(%s) b%d" % (tt, j))
                 else:
-                    decls.append("    %s a%d; /* arbitrary */" % (tt, j))
+                    decls.append("    C16_ARB(%s, a%d);" % (tt, j))
                     args.append("a%d" % j)
             exp = expected(d["rtype"], d["name"], 0 if i == min(k for k, (t, n) in enumerate(d["params"]) if is_ptr(t)) else 1, 0)
             rt = d["rtype"].replace("static", "").strip()
